@@ -29,10 +29,19 @@ def conds_for(progs, tier, fn="verdict", twins=True):
     return out
 
 
+QUICK_SKIP = {3, 5, 12, 13, 15, 25, 32}  # near-duplicates of other programs; run in the thorough tier only
+TWINS = {0, 8, 14, 17, 21, 24, 30}
+
+
 def run(tier):
     run = Run("C07", tier)
     run.confirm_known()
-    run.run_conditions(conds_for(range(NPROG), tier), conformance_harnesses=["h_constraints.py"])
+    progs = [p for p in range(NPROG) if not (tier == "quick" and p in QUICK_SKIP)]
+    conds = conds_for(progs, tier)
+    for c in conds:
+        if int(c.env["H_PROG"]) not in TWINS:
+            c.twin = None
+    run.run_conditions(conds, conformance_harnesses=["h_constraints.py"])
     run.encoded = ENCODED
     run.extra["source_sha256_16"] = source_fingerprint(FILES)
     run.bounds = {"constraint programs": f"{NPROG} fixed texts covering plain symbols, ., .., [i], [i:j], *<A>, |..|, len(*..), any/all comprehensions, "
